@@ -655,6 +655,18 @@ func (st *runState) checkDocument(r *reqRec, add func(p, oracle, sig, detail str
 				vals, _ := om["values"].([]any)
 				total += len(vals)
 			}
+			// whatever the pipeline: its stages drop or rewrite entries, none makes two of one - the document cannot hold
+			// more entries than rows were fetched
+			var dstm []*sqlfake.Stmt
+			for _, s := range r.Stmts {
+				if s.Class == "data" {
+					dstm = append(dstm, s)
+				}
+			}
+			if len(dstm) == 1 && !dstm[0].Aborted && total > dstm[0].Served {
+				add("C15", "entry-duplicated", "the document holds more entries than rows were served: "+rq.Kind,
+					fmt.Sprintf("req%d %s: %d rows served by the database, %d entries in %d stream objects", r.ID, r.Path, dstm[0].Served, total, len(res)))
+			}
 			for k, n := range objs {
 				if n > 1 && !passThrough(rq.Query) {
 					sig := "one label set is returned as several stream objects (query with in-process stages)"
